@@ -34,6 +34,40 @@ Proof.
     cbn [length] in *. lia.
 Qed.
 
+Theorem restart_presented_pre w r n k0 rest rn d0 r2 :
+  LIx (w_st w) -> graves_drawn (w_st w) -> rq_plan r = [] -> rq_crash r = Some n ->
+  no_deletes (ev_prefix (ob_evs (snd (step w (HReq (nocrash r))))) n) ->
+  presents w r = CKey k0 ->
+  CrashChain.spath (fun _ => True) (store (w_st w)) k0 rest ->
+  lookup (store (w_st w)) (last rest k0) = Some rn ->
+  (forall o ob, In (last rest k0, o) (cache (w_st w)) -> hget (w_st w) o = Some ob -> r_ref (o_rec ob) = None ->
+     CrashFault3.dat (o_rec ob) = CrashFault3.dat rn) ->
+  (forall id0 rc0, ob_start (snd (step w (HReq (nocrash r)))) = Some (id0, rc0) -> r_data rc0 = Some d0) ->
+  let w' := fst (step w (HReq r)) in
+  rq_plan r2 = [] -> rq_crash r2 = None -> presents w' r2 = CKey k0 ->
+  (forall rk, lookup (store (w_st w')) k0 = Some rk ->
+     CrashRestart.probe_ok (conf (w_st w')) (now (w_st w')) (mkReq (CKey k0) (rq_create r2) (rq_addr r2) (rq_ua r2)) rk) ->
+  ob_res (snd (step w' (HReq r2))) = RSess /\
+  exists id rc, ob_start (snd (step w' (HReq r2))) = Some (id, rc) /\ r_ref rc = None /\
+    (CrashFault3.dat rc = CrashFault3.dat rn \/ In (CrashFault3.dat rc) (script_data d0 (rq_script r))).
+Proof.
+  intros Hl Hg Hpl Hcr Hnd Hpr Hp Hrn Hca Hd0 w' Hpl2 Hcr2 Hpr2 Hok.
+  pose proof (presented_data_pre w r n k0 rest rn d0 Hl Hg Hpl Hcr Hnd Hpr Hp Hrn Hca Hd0) as Hres.
+  destruct (proj1 (CrashChain.resolves_chain_meaning _ _ _) Hres) as (rest' & Hp').
+  destruct (crash_store w r n Hcr) as (Hc & _ & _ & _).
+  assert (Hl' : LIx (w_st w')) by (apply LIx_step; assumption).
+  assert (Hplan : plan (w_st w') = []).
+  { destruct Hl' as [b' (W & _)]. exact (i_plan _ _ _ _ _ W). }
+  set (F := fun rd => CrashFault3.dat rd = CrashFault3.dat rn \/ In (CrashFault3.dat rd) (script_data d0 (rq_script r))).
+  apply (CrashChain3.probe_chain_step F w' r2 k0 rest'); try assumption.
+  - intros cf x Hx. unfold F. rewrite CrashFault5.dat_codec. exact Hx.
+  - intros x t Hx. exact Hx.
+  - intros x t Hx. exact Hx.
+  - intros x a Hx. exact Hx.
+  - intros x a Hx. exact Hx.
+  - exact (spath_fuel F (w_st w') k0 rest' Hl' Hc Hp').
+Qed.
+
 Theorem restart_presented w r n k0 rest rn d0 r2 :
   LIx (w_st w) -> graves_drawn (w_st w) -> rq_plan r = [] -> rq_crash r = Some n ->
   no_deletes (ob_evs (snd (step w (HReq (nocrash r))))) ->
@@ -51,21 +85,27 @@ Theorem restart_presented w r n k0 rest rn d0 r2 :
   exists id rc, ob_start (snd (step w' (HReq r2))) = Some (id, rc) /\ r_ref rc = None /\
     (CrashFault3.dat rc = CrashFault3.dat rn \/ In (CrashFault3.dat rc) (script_data d0 (rq_script r))).
 Proof.
-  intros Hl Hg Hpl Hcr Hnd Hpr Hp Hrn Hca Hd0 w' Hpl2 Hcr2 Hpr2 Hok.
-  pose proof (presented_data_any w r n k0 rest rn d0 Hl Hg Hpl Hcr Hnd Hpr Hp Hrn Hca Hd0) as Hres.
-  destruct (proj1 (CrashChain.resolves_chain_meaning _ _ _) Hres) as (rest' & Hp').
-  destruct (crash_store w r n Hcr) as (Hc & _ & _ & _).
-  assert (Hl' : LIx (w_st w')) by (apply LIx_step; assumption).
-  assert (Hplan : plan (w_st w') = []).
-  { destruct Hl' as [b' (W & _)]. exact (i_plan _ _ _ _ _ W). }
-  set (F := fun rd => CrashFault3.dat rd = CrashFault3.dat rn \/ In (CrashFault3.dat rd) (script_data d0 (rq_script r))).
-  apply (CrashChain3.probe_chain_step F w' r2 k0 rest'); try assumption.
-  - intros cf x Hx. unfold F. rewrite CrashFault5.dat_codec. exact Hx.
-  - intros x t Hx. exact Hx.
-  - intros x t Hx. exact Hx.
-  - intros x a Hx. exact Hx.
-  - intros x a Hx. exact Hx.
-  - exact (spath_fuel F (w_st w') k0 rest' Hl' Hc Hp').
+  intros Hl Hg Hpl Hcr Hnd. exact (restart_presented_pre w r n k0 rest rn d0 r2 Hl Hg Hpl Hcr (no_deletes_prefix _ n Hnd)).
+Qed.
+
+Theorem restart_presented_reach_pre c hs r n k0 rest rn d0 r2 :
+  Forall ff_hop hs -> rq_plan r = [] -> rq_crash r = Some n ->
+  no_deletes (ev_prefix (ob_evs (snd (step (reach c hs) (HReq (nocrash r))))) n) ->
+  presents (reach c hs) r = CKey k0 ->
+  CrashChain.spath (fun _ => True) (store (w_st (reach c hs))) k0 rest ->
+  lookup (store (w_st (reach c hs))) (last rest k0) = Some rn ->
+  (forall o ob, In (last rest k0, o) (cache (w_st (reach c hs))) -> hget (w_st (reach c hs)) o = Some ob -> r_ref (o_rec ob) = None ->
+     CrashFault3.dat (o_rec ob) = CrashFault3.dat rn) ->
+  (forall id0 rc0, ob_start (snd (step (reach c hs) (HReq (nocrash r)))) = Some (id0, rc0) -> r_data rc0 = Some d0) ->
+  let w' := fst (step (reach c hs) (HReq r)) in
+  rq_plan r2 = [] -> rq_crash r2 = None -> presents w' r2 = CKey k0 ->
+  (forall rk, lookup (store (w_st w')) k0 = Some rk ->
+     CrashRestart.probe_ok (conf (w_st w')) (now (w_st w')) (mkReq (CKey k0) (rq_create r2) (rq_addr r2) (rq_ua r2)) rk) ->
+  ob_res (snd (step w' (HReq r2))) = RSess /\
+  exists id rc, ob_start (snd (step w' (HReq r2))) = Some (id, rc) /\ r_ref rc = None /\
+    (CrashFault3.dat rc = CrashFault3.dat rn \/ In (CrashFault3.dat rc) (script_data d0 (rq_script r))).
+Proof.
+  intro Hff. exact (restart_presented_pre (reach c hs) r n k0 rest rn d0 r2 (LIx_reach c hs Hff) (graves_drawn_reach c hs Hff)).
 Qed.
 
 Theorem restart_presented_reach c hs r n k0 rest rn d0 r2 :
